@@ -132,3 +132,146 @@ theorem restore_inverts_duplicate (h : Heap) (x : Nat)
     · simp [hf]
 
 end MG.C13
+
+/-! ## the functions `_in_place_op` calls: `DuplicatingGraph(x)` then `restore_old_graph` -/
+
+namespace MG.C13
+open MG.Eng MG.ND
+
+/-- `x.null_grad()` -/
+def nullGrad (h : Heap) (x : Nat) : Heap := h.modT x ({ · with grad := none, viewGrad := none })
+
+theorem duplicate_no_children (fuel : Nat) (h : Heap) (live : List Nat) (bp t : Nat) (nodes : List Node)
+    (hc : liveChildren h live t = []) : duplicate (fuel + 1) h live bp t nodes = .ok (h, nodes) := by
+  simp [duplicate, hc]
+
+theorem flatMap_nil_of_forall {α β} (l : List α) (f : α → List β) (hf : ∀ a ∈ l, f a = []) : l.flatMap f = [] := by
+  induction l with
+  | nil => rfl
+  | cons a l ih =>
+    simp only [List.flatMap_cons, hf a (List.mem_cons_self ..), List.nil_append]
+    exact ih fun b hb => hf b (List.mem_cons_of_mem _ hb)
+
+/-- the graph `DuplicatingGraph(x)` builds for a tensor without live views: one node -/
+theorem mkDupGraph_no_views (h : Heap) (live : List Nat) (x : Nat) (hx : x < h.next)
+    (hbase : (h.t x).base = none) (hnov : liveChildren h live x = []) :
+    mkDupGraph h live x =
+      .ok (reroute (phHeap (nullGrad h x) x) h.next x, ⟨[⟨x, h.next, none⟩]⟩) := by
+  have hne : h.next ≠ x := by omega
+  have hg : ((nullGrad h x).t x).grad = none := by simp [nullGrad]
+  have hb0 : ((nullGrad h x).t x).base = none := by simp [nullGrad, hbase]
+  have hmk := makePlaceholder_eq (nullGrad h x) x hg
+  have hnx : (nullGrad h x).next = h.next := rfl
+  unfold mkDupGraph
+  simp only
+  show (match makePlaceholder (nullGrad h x) x ((nullGrad h x).t x).base with
+    | .error e => _ | .ok (h, p) => _) = _
+  rw [hb0, hmk, hnx]
+  simp only
+  obtain ⟨r1t, _, r1n, _⟩ := reroute_spec (phHeap (nullGrad h x) x) h.next x hne
+  have hfuel : (reroute (phHeap (nullGrad h x) x) h.next x).fuel = ((reroute (phHeap (nullGrad h x) x) h.next x).next + 1) + 1 := rfl
+  have hch : liveChildren (reroute (phHeap (nullGrad h x) x) h.next x) live x = [] := by
+    unfold liveChildren at hnov ⊢
+    rw [r1t x]
+    have : ((phHeap (nullGrad h x) x).t x).vchildren = (h.t x).vchildren := by
+      have hne' : x ≠ (nullGrad h x).next := fun e => hne (hnx ▸ e.symm)
+      simp only [phHeap, mirror, fresh_snd]
+      rw [t_modT_ne _ _ _ _ hne', t_setT_ne _ _ _ _ hne']
+      show ((nullGrad h x).t x).vchildren = _
+      simp [nullGrad]
+    rw [this]; exact hnov
+  rw [hfuel, duplicate_no_children _ _ _ _ _ _ hch]
+
+end MG.C13
+
+namespace MG.C13
+open MG.Eng MG.ND
+
+theorem dfs_single (h1 : Heap) (x p : Nat) (hvc : ∀ c ∈ (h1.t p).vchildren, c ≠ x ∧ c ≠ p) :
+    (⟨[⟨x, p, none⟩]⟩ : DupGraph).dfs h1 = [⟨x, p, none⟩] := by
+  unfold DupGraph.dfs
+  show DupGraph.dfs.go _ h1 (h1.next + 1 + 1) p = _
+  unfold DupGraph.dfs.go
+  simp only [DupGraph.node?, List.find?, or_true, decide_true]
+  have : (h1.t p).vchildren.flatMap (DupGraph.dfs.go ⟨[⟨x, p, none⟩]⟩ h1 (h1.next + 1)) = [] := by
+    apply flatMap_nil_of_forall
+    intro c hc
+    obtain ⟨h1c, h2c⟩ := hvc c hc
+    unfold DupGraph.dfs.go
+    simp [DupGraph.node?, List.find?, Ne.symm h1c, Ne.symm h2c]
+  simp [this]
+
+theorem restore_single (h1 : Heap) (x p : Nat) (hne : x ≠ p)
+    (hvc : ∀ c ∈ (h1.t p).vchildren, c ≠ x ∧ c ≠ p) (hpb : (h1.t p).base = none) :
+    (⟨[⟨x, p, none⟩]⟩ : DupGraph).restore h1 = reroute h1 x p := by
+  unfold DupGraph.restore
+  rw [dfs_single h1 x p hvc]
+  simp only [List.foldl_cons, List.foldl_nil]
+  have : ((reroute h1 x p).t p).base = none := by
+    rw [(reroute_spec h1 x p hne).1 p]; exact hpb
+  simp [this]
+
+end MG.C13
+
+namespace MG.C13
+open MG.Eng MG.ND
+
+/-- **restore_inverts_mkDupGraph** (tensor that owns its memory, no live views).  For the *functions the
+in-place machinery actually calls*: `DuplicatingGraph(x)` (`mkDupGraph`, which first discards `x`'s
+gradient) succeeds, and `restore_old_graph` applied to its result gives back the heap of `x.null_grad()`:
+every tensor other than the internal placeholder is as `null_grad` leaves it — value, flag, base,
+creator, consumers, view children — no buffer was touched, and every op has exactly its old variables.
+So a failing in-place update leaves no trace beyond the discarded gradient (which the update nulls up
+front in any case). -/
+theorem restore_inverts_mkDupGraph (h : Heap) (live : List Nat) (x : Nat) (hx : x < h.next)
+    (hbase : (h.t x).base = none) (hnov : liveChildren h live x = [])
+    (hvc : ∀ c ∈ (h.t x).vchildren, c ≠ x ∧ c ≠ h.next)
+    (hfresh : ∀ f, h.next ∉ (h.op f).vars) :
+    ∃ h2 g, mkDupGraph h live x = .ok (h2, g) ∧
+      (∀ t, t ≠ h.next → (g.restore h2).t t = (nullGrad h x).t t) ∧
+      (g.restore h2).bufs = h.bufs ∧
+      (∀ f, ((g.restore h2).op f).vars = (h.op f).vars) := by
+  have hne : h.next ≠ x := by omega
+  refine ⟨_, _, mkDupGraph_no_views h live x hx hbase hnov, ?_⟩
+  have hnx : (nullGrad h x).next = h.next := rfl
+  -- the placeholder mirrors x: its view children are x's, its base is none
+  have hpt : ((reroute (phHeap (nullGrad h x) x) h.next x).t h.next) =
+      { (nullGrad h x).t x with base := none } := by
+    rw [(reroute_spec (phHeap (nullGrad h x) x) h.next x hne).1]
+    simp [phHeap, mirror, hnx]
+  have hpv : ((reroute (phHeap (nullGrad h x) x) h.next x).t h.next).vchildren = (h.t x).vchildren := by
+    rw [hpt]; simp [nullGrad]
+  have hpb : ((reroute (phHeap (nullGrad h x) x) h.next x).t h.next).base = none := by rw [hpt]
+  rw [restore_single _ x h.next (Ne.symm hne) (by rw [hpv]; exact hvc) hpb]
+  -- now the two-reroute argument of `restore_inverts_duplicate`, on the heap after null_grad
+  have hg : ((nullGrad h x).t x).grad = none := by simp [nullGrad]
+  have hfresh' : ∀ f, (nullGrad h x).next ∉ ((nullGrad h x).op f).vars := fun f => hfresh f
+  obtain ⟨h2, p, hmk, hp, ht, hb, hv⟩ := restore_inverts_duplicate (nullGrad h x) x hg hx hfresh'
+  rw [makePlaceholder_eq (nullGrad h x) x hg] at hmk
+  injection hmk with hmk
+  injection hmk with hh2 hpp
+  subst hh2
+  rw [hnx] at hp ht hb hv
+  subst hp
+  exact ⟨fun t ht' => ht t ht', hb, fun f => hv f⟩
+
+/-- a leaf that was multiplied once (one consumer op) and holds a gradient -/
+def exHeap : Heap :=
+  { tens := [(0, { data := ⟨5, Desc.contig 0 [2]⟩, const := false, grad := some ([2], [1, 1]), ops := [1] })],
+    ops := [(1, { kind := .mul, vars := [0, 0] })], bufs := [(5, [3, 4])], next := 6 }
+
+/-- the hypotheses of `restore_inverts_mkDupGraph` are satisfiable (by a tensor that does hold a gradient) -/
+example : (0 : Nat) < exHeap.next ∧ (exHeap.t 0).base = none ∧ liveChildren exHeap [0] 0 = [] ∧
+    (∀ c ∈ (exHeap.t 0).vchildren, c ≠ 0 ∧ c ≠ exHeap.next) ∧ (∀ f, exHeap.next ∉ (exHeap.op f).vars) ∧
+    (exHeap.t 0).grad.isSome := by
+  refine ⟨by decide, rfl, rfl, ?_, ?_, rfl⟩
+  · intro c hc
+    cases hc
+  · intro f
+    by_cases hf : f = 1
+    · subst hf; decide
+    · have : (exHeap.op f).vars = [] := by
+        simp [exHeap, Heap.op, lookup, Ne.symm hf]; rfl
+      rw [this]; simp
+
+end MG.C13
